@@ -21,7 +21,7 @@ EXTENDS ComposedApp, TLCExt
 Traces == JsonDeserialize(IOEnv.TRACE_FILE)
 
 VARIABLES tid, l, bad
-tvars == <<plan, named, naming, rev, w, wtyped, submitted, pending, running, finished, result, order, cons, written, arg, argseen, tid, l, bad>>
+tvars == <<plan, named, naming, rev, rep, w, wtyped, submitted, pending, running, finished, result, order, cons, written, arg, argseen, tid, l, bad>>
 
 Ev == Traces[tid].events[l]
 
@@ -30,6 +30,7 @@ Fresh(k) ==
     /\ named' = Traces[k].named
     /\ rev' = Traces[k].rev
     /\ naming' = Traces[k].naming
+    /\ rep' = Traces[k].rep
     /\ arg' = Arg0 /\ argseen' = [i \in Inputs |-> NoArg]
     /\ w' = Traces[k].w
     /\ wtyped' = Traces[k].wtyped
@@ -42,7 +43,7 @@ Fresh(k) ==
 
 TraceInit ==
     /\ tid = 1 /\ l = 1 /\ bad = {}
-    /\ rev = Traces[1].rev /\ naming = Traces[1].naming /\ arg = Arg0 /\ argseen = [i \in Inputs |-> NoArg]
+    /\ rev = Traces[1].rev /\ naming = Traces[1].naming /\ rep = Traces[1].rep /\ arg = Arg0 /\ argseen = [i \in Inputs |-> NoArg]
     /\ plan = Traces[1].plan /\ named = Traces[1].named /\ w = Traces[1].w /\ wtyped = Traces[1].wtyped
     /\ submitted = FALSE /\ pending = <<>> /\ running = {} /\ finished = {}
     /\ result = [i \in Inputs |-> None]
